@@ -51,7 +51,7 @@ def requirements(tier):
          "cagrad_distance_checked": 150, "cagrad_c0_checked": 30, "cagrad_stationary_checked": 5, "graddrop_candidate_pair_checked": 1500,
          "graddrop_draws_vs_purity_checked": 1000, "graddrop_pure_column_checked": 300, "pcgrad_schedules_forced": 500, "pcgrad_distinct_outputs_m3": 2,
          "pcgrad_free_seed_in_candidate_set": 200, "pcgrad_no_conflict_is_sum": 50, "pcgrad_replayed_draws_m_gt_4": 50, "randperm_recorder_hits": 1,
-         "rand_recorder_hits": 1, "w_leak_0_and_1": 100, "w_float32": 300}
+         "rand_recorder_hits": 1, "w_leak_0_and_1": 100, "w_float32": 300, "w_graddrop_non_default_f": 300}
     if tier == "thorough":
         r["pcgrad_m4_all_1296"] = 20
         r["graddrop_frequency_checked"] = 100
@@ -232,7 +232,8 @@ def gen_graddrop(rng, i):
         leak = [float(x) for x in rng.integers(0, 2, size=m)]  # only 0 and 1
     else:
         leak = [float(x) for x in np.round(rng.uniform(0, 1, size=m), 3)]
-    return {"J": J.tolist(), "class": klass, "dtype": dname, "agg": {"name": "GradDrop", "leak": leak}, "seed": int(rng.integers(1 << 20))}
+    f = ["identity", "identity", "square", "sqrt", "steep"][int(rng.integers(5))]
+    return {"J": J.tolist(), "class": klass, "dtype": dname, "agg": {"name": "GradDrop", "leak": leak, "f": f}, "seed": int(rng.integers(1 << 20))}
 
 
 def check_graddrop(case, ctx):
@@ -269,7 +270,7 @@ def check_graddrop(case, ctx):
             ctx.count("rand_recorder_hits")
             U = rec["rand"][0].double().numpy()
             if U.shape == (n,):
-                P = R.graddrop_purity(J)
+                P = R.GRADDROP_F[a.get("f", "identity")](R.graddrop_purity(J))  # f(P): the probability of keeping the positive sign
                 margin = np.abs(P - U) > {"float64": 1e-9, "float32": 1e-5}[dname]
                 mixed = ~pure & ~np.isnan(P) & margin & (np.abs(pos - neg) > 64 * eps * colscale)
                 expect_pos = P > U
@@ -283,6 +284,8 @@ def check_graddrop(case, ctx):
         ctx.violation(vio[0], case, vio[1])
     if a["leak"] is not None and 0.0 in a["leak"] and 1.0 in a["leak"]:
         ctx.count("w_leak_0_and_1")
+    if a.get("f", "identity") != "identity":
+        ctx.count("w_graddrop_non_default_f")
     if dname == "float32":
         ctx.count("w_float32")
     mixed_col = bool((((J > 0).any(axis=0)) & ((J < 0).any(axis=0))).any())
